@@ -1,6 +1,6 @@
 (* C07 — Base58, Base58Check and bech32 are exact, strict, side-effect-free inverses.
    Only statements; every proof is `exact <lemma proved elsewhere>`. *)
-From BU Require Import Lib.Bytes Lib.Slice Base58.Base58 Base58.Base58Proofs Bech32.Bech32 Bech32.Bech32Proofs Bech32.PurityModel Bech32.Purity Bech32.ConvertBitsProofs Gen.AppendSites.
+From BU Require Import Lib.Bytes Lib.Slice Base58.Base58 Base58.Base58Proofs Bech32.Bech32 Bech32.Bech32Proofs Bech32.PurityModel Bech32.Purity Bech32.ConvertBitsProofs Gen.AppendSites Gen.Kernels Tie.KernelsTie.
 
 (* Decode after Encode is the identity on every byte string *)
 Theorem C07_base58_decode_encode : forall b, Bytes b -> Base58.decode (Base58.encode b) = b.
@@ -111,3 +111,11 @@ Print Assumptions C07_bech32_encode_old_impure_refuted.
 Theorem C07_no_exported_append_sites : append_sites_exported = [].
 Proof. exact no_exported_append_sites. Qed.
 Print Assumptions C07_no_exported_append_sites.
+
+(* ---------------- translator tie ---------------- *)
+(* the checksum register of the model IS the Go function bech32Polymod: Gen.Kernels.bech32Polymod is regenerated
+   from the function's AST on every run (harness/cmd/gotrans) and proved equal to the model for all inputs *)
+Theorem C07_bech32_polymod_is_translated_source : forall values,
+  Forall (fun x => x < 2 ^ 30) values -> Kernels.bech32Polymod values = Bech32.polymod values.
+Proof. exact bech32Polymod_tie. Qed.
+Print Assumptions C07_bech32_polymod_is_translated_source.
